@@ -716,11 +716,13 @@ def r5_message_text_of_objects(ctx) -> None:
     exception classes; closure: the generated repr of a dataclass shows every field not declared repr=False, recursively
     (declared field types and all their subclasses)."""
     r, prog, types = ctx.r, ctx.prog, ctx.types
-    r.rule("C20.R5", "no object whose text is interpolated into an error message shows a set (or a pipeline back-pointer) through a generated dataclass repr: such fields are declared repr=False or the class renders them sorted")
+    r.rule("C20.R5", "no object whose text is interpolated into an error message shows a set (or a pipeline back-pointer) through a generated dataclass repr: such fields are declared repr=False or the class renders them sorted; nor does it reach a field into which a randomly drawn detection name is stored (fields derived from the stores of the reviewed random sources)")
     by_simple: dict[str, list[str]] = {}
     for cq in prog.classes:
         by_simple.setdefault(cq.rsplit(".", 1)[-1], []).append(cq)
     roots: dict[tuple[str, bool], str] = {}   # (class, use_repr) -> first site
+    root_sites: list[tuple[str, bool, str, str, str]] = []   # (class, use_repr, owner, expression text, location)
+    cur_owner = [""]
 
     def add_root(m, e: ast.AST, use_repr: bool, site: str) -> None:
         t = types.type_of(m, e)
@@ -729,6 +731,7 @@ def r5_message_text_of_objects(ctx) -> None:
         for cn in _all_class_names(types, t):
             if cn in prog.classes:
                 roots.setdefault((cn, use_repr), site)
+                root_sites.append((cn, use_repr, cur_owner[0], unparse(e), site.split(" ")[0]))
 
     def scan_formatted(fi: FuncInfo, node: ast.AST, why: str) -> int:
         n = 0
@@ -749,6 +752,9 @@ def r5_message_text_of_objects(ctx) -> None:
     for q, fi in sorted(prog.funcs.items()):
         if fi.module.name.startswith(EXCLUDED):
             continue
+        cur_owner[0] = fi.cls.qual if fi.cls is not None and fi.name in ("__str__", "__repr__") else q
+        if fi.name.startswith("from_") and any(unparse(d) in ("classmethod", "staticmethod") for d in fi.node.decorator_list):
+            cur_owner[0] = ""     # constructors from documents: what they show was built in this call, before any pipeline or filter drew a name
         for rs in (x for x in walk_no_nested(fi.node) if isinstance(x, ast.Raise) and x.exc is not None):
             n_sites += scan_formatted(fi, rs.exc, f"raise in {q}")
         # messages of the exception classes themselves
@@ -809,7 +815,178 @@ def r5_message_text_of_objects(ctx) -> None:
             else:
                 r.ok("C20.R5", sub, f"generated repr shows no set or pipeline back-pointer (reached from {site})", loc)
     r.analysed["C20.classes_with_text_in_messages"] = n_cls
+    r5_random_names_in_text(ctx, root_sites, by_simple)
     r.floor("C20.R5", 30)
+
+
+def random_name_fields(ctx) -> dict[tuple[str, str], str]:
+    """(class, field) -> where a randomly drawn name is stored into it. Derived from the classes of the reviewed table of
+    random sources: a local is tainted when its value is computed from a draw (or from a field whose default factory draws);
+    a store `<obj>.<field>[<tainted key>] = …`, `<obj>.<field>[…] = <tainted text>` or `<obj>.<field> = <tainted>` marks
+    the field of the mypy-typed class of <obj>."""
+    prog, types = ctx.prog, ctx.types
+    out: dict[tuple[str, str], str] = {}
+
+    def draws(e: ast.AST) -> bool:
+        return any(isinstance(x, ast.Call) and call_name(x).startswith(RANDOM_CALLS) for x in ast.walk(e))
+
+    for (owner, _call) in ACCEPTED_RANDOM:
+        ci = prog.classes.get(owner)
+        if ci is None:
+            continue
+        tainted_self: set[str] = set()
+        for fname, st in prog.dataclass_fields(owner).items():
+            if st.value is not None and draws(st.value):
+                tainted_self.add(fname)
+                out[(owner, fname)] = f"{ci.module.relpath}:{st.lineno} default factory"
+        for fi in ci.methods.values():
+            m = fi.module
+            tainted: set[str] = set()
+
+            def is_tainted(e: ast.AST) -> bool:
+                for x in ast.walk(e):
+                    if isinstance(x, ast.Name) and x.id in tainted:
+                        return True
+                    if isinstance(x, ast.Attribute) and isinstance(x.value, ast.Name) and x.value.id == "self" and x.attr in tainted_self:
+                        return True
+                    if isinstance(x, ast.Call) and call_name(x).startswith(RANDOM_CALLS):
+                        return True
+                return False
+
+            changed = True
+            while changed:      # names bound from tainted expressions, to a fixed point (loops, later rebinding)
+                changed = False
+                for st in ast.walk(fi.node):
+                    tg: list[ast.AST] = []
+                    val = None
+                    if isinstance(st, ast.Assign):
+                        tg, val = list(st.targets), st.value
+                    elif isinstance(st, (ast.AnnAssign, ast.AugAssign)) and st.value is not None:
+                        tg, val = [st.target], st.value
+                    elif isinstance(st, ast.NamedExpr):
+                        tg, val = [st.target], st.value
+                    elif isinstance(st, (ast.For, ast.comprehension)):
+                        tg, val = [st.target], st.iter
+                    elif (isinstance(st, ast.Call) and isinstance(st.func, ast.Attribute) and isinstance(st.func.value, ast.Name)
+                          and st.func.attr in ("append", "extend", "add", "insert", "update", "setdefault") and st.args):
+                        tg, val = [ast.Name(id=st.func.value.id, ctx=ast.Store())], ast.Tuple(elts=list(st.args), ctx=ast.Load())
+                    if val is None or not is_tainted(val):
+                        continue
+                    for t in tg:
+                        for nm in (x.id for x in ast.walk(t) if isinstance(x, ast.Name) and isinstance(x.ctx, ast.Store)):
+                            if nm not in tainted:
+                                tainted.add(nm)
+                                changed = True
+            for st in ast.walk(fi.node):
+                if isinstance(st, ast.Assign):
+                    tg, val = list(st.targets), st.value
+                elif isinstance(st, ast.AugAssign):
+                    tg, val = [st.target], st.value
+                else:
+                    continue
+                for t in tg:
+                    base = None
+                    if isinstance(t, ast.Subscript) and isinstance(t.value, ast.Attribute) and (is_tainted(t.slice) or is_tainted(val)):
+                        base = t.value
+                    elif isinstance(t, ast.Attribute) and is_tainted(val):
+                        base = t
+                    if base is None:
+                        continue
+                    ty = types.type_of(m, base.value)
+                    for cn in (_all_class_names(types, ty) if ty is not None else ()):
+                        if cn in prog.classes:
+                            out.setdefault((cn, base.attr), f"{m.relpath}:{st.lineno} {short(st, 70)}")
+    return out
+
+
+def r5_random_names_in_text(ctx, root_sites, by_simple) -> None:
+    """The names add_condition and filters draw at random are stored in fields of the rule. An error message that shows the
+    generated repr of an object reaching such a field differs between processes."""
+    r, prog = ctx.r, ctx.prog
+    rnd = random_name_fields(ctx)
+    r.analysed["C20.fields_holding_random_names"] = sorted(f"{c}.{f}" for c, f in rnd)
+    if len(rnd) < 2:
+        raise AnalysisError("C20.R5: the stores of the randomly drawn detection names were not found (expected at least the detection map and the condition list)")
+    memo: dict[tuple[str, bool], tuple[set[str], list[tuple[str, bool]]]] = {}
+
+    def direct(key: tuple[str, bool]) -> tuple[set[str], list[tuple[str, bool]]]:
+        """Fields with random names shown by the text of the class (and its subclasses) itself, and the objects whose text it embeds."""
+        if key in memo:
+            return memo[key]
+        cq, use_repr = key
+        out: set[str] = set()
+        nxt: list[tuple[str, bool]] = []
+        for sub in prog.subclasses(cq):
+            ci = prog.classes.get(sub)
+            if ci is None or ci.module.name.startswith(EXCLUDED):
+                continue
+            kind, what = _text_function(prog, sub, use_repr)
+            if kind == "method":
+                m = what.module
+                for x in ast.walk(what.node):
+                    e = None
+                    if isinstance(x, ast.FormattedValue):
+                        e, rp = x.value, x.conversion == ord("r")
+                    elif isinstance(x, ast.Call) and call_name(x) in ("str", "repr") and x.args:
+                        e, rp = x.args[0], call_name(x) == "repr"
+                    if e is None:
+                        continue
+                    if isinstance(e, ast.Attribute) and isinstance(e.value, ast.Name) and e.value.id == "self":
+                        for b_ in prog.mro(sub):
+                            if (b_, e.attr) in rnd:
+                                out.add(f"{b_.rsplit('.', 1)[-1]}.{e.attr}")
+                    t = ctx.types.type_of(m, e)
+                    for cn in (_all_class_names(ctx.types, t) if t is not None else ()):
+                        if cn in prog.classes:
+                            nxt.append((cn, rp))
+                continue
+            if kind != "generated":
+                continue
+            for fname, st in prog.dataclass_fields(sub).items():
+                if _field_opt(st, "repr") is False:
+                    continue
+                for b_ in prog.mro(sub):
+                    if (b_, fname) in rnd:
+                        out.add(f"{b_.rsplit('.', 1)[-1]}.{fname}")
+                ann = unparse(st.annotation).replace('"', "").replace("'", "")
+                for nm in set(n.id for n in ast.walk(ast.parse(ann, mode="eval")) if isinstance(n, ast.Name)) if _parsable(ann) else ():
+                    for tq in by_simple.get(nm, ()):
+                        nxt.append((tq, True))
+        memo[key] = (out, nxt)
+        return memo[key]
+
+    def shown(cq: str, use_repr: bool) -> set[str]:
+        seen_: set[tuple[str, bool]] = set()
+        work_ = [(cq, use_repr)]
+        out: set[str] = set()
+        while work_:
+            k = work_.pop()
+            if k in seen_:
+                continue
+            seen_.add(k)
+            f_, n_ = direct(k)
+            out |= f_
+            work_.extend(n_)
+        return out
+
+    n = 0
+    reported: set[tuple[str, str]] = set()
+    for cn, use_repr, owner, etxt, loc in root_sites:
+        if not owner:
+            continue
+        fields = shown(cn, use_repr)
+        n += 1
+        if not fields:
+            continue
+        root = cn.rsplit(".", 1)[-1]
+        if (owner, root) in reported:
+            continue
+        reported.add((owner, root))
+        r.violation("C20.R5", owner, f"the message shows the text of a {root}",
+                    f"{etxt} is interpolated into the error text; the generated repr reaches {', '.join(sorted(fields))}, which hold the detection names "
+                    f"add_condition ('_cond_<10 letters>') and filters ('_filt_<10 letters>_…') draw at random, so the error record differs from process to process", loc)
+    r.analysed["C20.message_roots_checked_for_random_names"] = n
+    r.ok("C20.R5", "random names", f"{n} interpolated objects checked against {len(rnd)} fields that hold randomly drawn names: {', '.join(sorted(c.rsplit('.', 1)[-1] + '.' + f for c, f in rnd))}")
 
 
 def _parsable(s: str) -> bool:
